@@ -805,6 +805,7 @@ func c11PeerVsClient(r *Run, variant string, extraBodies int) bool {
 func runC11(r *Run) {
 	c11AbandonedOpen(r)
 	c11FailedReset(r)
+	c11SlowPeerLateFrame(r)
 	maxN := r.Scale(4, 8)
 	maxBy := r.Scale(2, 4)
 	if r.Want("early") {
